@@ -783,10 +783,55 @@ def probe_excluded(check):
 
 
 # ------------------------------------------------------------------ entry points
+def D_ty(ty):
+    if ty[0] == 'prim':
+        return ty[1]
+    if ty[0] == 'ref':
+        return 'K%d' % ty[1]
+    return 'Array(%s)' % D_ty(ty[1])
+
+
 def run(check):
     tier = check.tier
     rng = check.rng
     t0 = time.time()
+    check.rule = (
+        'seeded type universes (2-5 ComplexModel classes with single inheritance; members Integer / Unicode / Boolean / '
+        'Double / Decimal / ByteArray, class references, Array and Array(Array), repeated members, min_occurs / nillable) '
+        'rendered as real Spyne classes and as Gallina terms; method signatures with 0-4 parameters and 0-3 results; '
+        'conformant values (2^63 / 2^64 boundaries, 10^300, Decimals to E+-400, every UTF-8 length class, empty containers, None '
+        'where allowed) and mutated documents (type confusion, dropped / renamed / added keys, str<->bin keys, wrapped / '
+        'unwrapped nodes); all 48 configurations {Json, Yaml, MessagePack} x ignore_wrappers x complex_as x polymorphic x '
+        'validator, plus MessagePackRpc; model vs implementation on _object_to_doc, _from_dict_value, and the ServerBase '
+        'pipeline (request -> call, call -> response document); the direct oracle builds each request with a reference '
+        'encoder of the documented conventions, checks the captured arguments, and decodes the response bytes (parsed '
+        'by json / PyYAML / msgpack) with a reference decoder; a case is distinct by (family, universe, configuration, '
+        'slot or signature, value or document)')
+    check.trusted = list(lib.COMMON_TRUSTED) + [
+        'translator harness/translate/dictdoc.py (hier.py / dictdoc/_base.py / msgpack.py tokens and the handler tables of '
+        'the protocol instances -> Gen/DictDoc.v)',
+        'the Python reference codec ref_* in harness/dictdoc.py (the documented conventions as the direct oracle uses '
+        'them) and its Coq counterpart coq/C02/Spec.v (senc / sresp / sresp_dec, conformance)',
+        'the json, PyYAML and msgpack libraries as wire oracles: the model boundary is the parsed document tree; a '
+        'request document the library does not carry unchanged is skipped',
+        'C08 theorems reused for leaves carried as text: int_of_text_str_int (integers), b64_roundtrip (ByteArray)',
+    ]
+    check.assumptions = [
+        'value graphs are trees (the id()-based cycle guard of _object_to_doc / _get_member_pairs is not modelled)',
+        'body_style is wrapped; no sub_name / order / exc / out_type / type / not_wrapped / simple_field attributes, no File, '
+        'Any, AnyDict, XmlAttribute, Uuid, Date/Time/Duration members (dates etc. travel as text exactly like Decimal; '
+        'their text codecs are C08 theorems, not re-proved here)',
+        'Double values are finite; equality of doubles is Python equality (0.0 / -0.0 / 1.0 arrive as 0 / 0 / 1: vnorm)',
+        'Decimal() / int() are modelled for ASCII digits without underscores, NaN / Infinity; nan / inf floats and '
+        'Decimal-readable (sign, digits, exponent) lists are kept out of the mutant stream',
+        'MessagePack text in requests is msgpack str (the bin form the serializer itself writes is not read back by '
+        'the Decimal reader); the reference decoder accepts str and bin for text, as Spyne writes bin',
+        'theorems exclude, and the oracle reports as known findings: complex_as=list with ignore_wrappers=False '
+        '(responses lack the wrapper keys), subclass instances under polymorphic=True with ignore_wrappers=True; '
+        'MessagePackRpc is tied by correspondence and oracle only (no call-level theorem), msgid is not echoed',
+        'a user function is entered exactly once per request in the model by construction (SCall); exactly-once at the '
+        'pipeline level is observed by the oracle (one recorded call), not proved here',
+    ]
     check.regen(['dictdoc', 'numtypes'])
     check.check_sources()
     if THEOREMS:
@@ -800,6 +845,12 @@ def run(check):
     n_worlds = 5 if tier == 'quick' else 24
     worlds = [World(rng, i) for i in range(n_worlds)]
     next_cfg = cfg_cycle(rng)
+    for w in worlds[:2]:
+        check.sample({'universe': [{'class': c['name'], 'parent': c['parent'],
+                                    'members': ['%s: %s%s' % (f['name'], D_ty(f['ty']), '*' if D.is_multi(f) else '')
+                                                for f in c['fields']]} for c in w.desc['classes']],
+                      'methods': ['%s(%s) -> (%s)' % (s['name'], ', '.join(D_ty(p['ty']) for p in s['params']),
+                                                      ', '.join(D_ty(r['ty']) for r in s['results'])) for s in w.sigs]})
     directed_cases(check, tier)
     family_oracle(check, tier, worlds, next_cfg)
     probe_excluded(check)
